@@ -88,12 +88,12 @@ def adaptive_cases(quick, rng):
 
 
 # --------------------------------------------------------------------------- snippet
-SN_ALPHA = [[1, "a"], [2, "a"], [4, "a"], [1, "."], [1, "n"], [1, "s"], [3, "a"], [1, "!"]]
+SN_ALPHA = [[1, "a"], [2, "a"], [4, "a"], [1, "."], [1, "n"], [1, "s"], [2, "w"], [3, "w"], [3, "a"], [1, "!"]]
 
 
 def snippet_cases(quick, rng):
     cases = []
-    base = SN_ALPHA[:6]
+    base = SN_ALPHA[:8]
     for n in range(0, 3 if quick else 4):
         for t in itertools.product(base, repeat=n):
             tl = sum(c[0] for c in t)
@@ -109,8 +109,10 @@ def snippet_cases(quick, rng):
             r = rng.random()
             if r < 0.62:
                 t.append(list(rng.choice([[1, "a"], [1, "a"], [1, "a"], [2, "a"], [3, "a"], [4, "a"]])))
-            elif r < 0.80:
+            elif r < 0.76:
                 t.append([1, "s"])
+            elif r < 0.80:
+                t.append(list(rng.choice([[2, "w"], [3, "w"]])))
             elif r < 0.92:
                 t.append([1, rng.choice([".", "!"])])
             else:
@@ -268,9 +270,81 @@ MC = {
     "C29": ("Capsule", lambda q: cfg({"MaxChunks": 3 if q else 4}, invariants=["RoundTrip", "NeverWrongPlaintext", "TamperRejected"])),
     "C30": ("MC_Codecs", lambda q: cfg({"U": "{0, 1, 3, 8}" if q else "{0, 1, 2, 3, 4, 5, 6, 7, 8}", "MaxEntries": 3 if q else 4},
                                        invariants=["RoundTrip", "GuardsReject", "NeverDifferent"])),
+    "C34": ("ChunkPlan", lambda q: cfg({"MaxLen": 6 if q else 8, "Sizes": "{2, 3}", "Slacks": "{1, 2}"}, invariants=["PlanIsPartition", "Bounded"])),
     "C32": ("QueryLang", lambda q: cfg({"MaxDepth": 128, "BaseAtoms": '{"a", "b", "p"}' if q else '{"a", "b", "p", "t"}', "AstDepth": 2},
                                        invariants=["MeansWhatItSays"])),
 }
+def chunk_cases(quick, rng):
+    """C34: texts in run-length form.  (1) the naive planner with small explicit chunk sizes on short structured texts
+    (every cut decision - newline / sentence end / white space ahead and behind, hard cut - within a few hundred characters);
+    (2) plan_text_chunks on texts around the 2400-character threshold and up to ~9000 characters; (3) structured documents."""
+    cases = []
+
+    def rnd_text(total, shape):
+        rl, n = [], 0
+        while n < total:
+            r = rng.random()
+            if shape == "prose":
+                k = rng.randint(1, 12)
+                rl.append([k, "a"])
+                n += k
+                sep = rng.random()
+                if sep < 0.70:
+                    rl.append([1, "s"])
+                elif sep < 0.88:
+                    rl += [[1, "."], [1, "s"]]
+                    n += 1
+                elif sep < 0.96:
+                    rl += [[1, "."], [1, "n"]]
+                    n += 1
+                else:
+                    rl.append([1, "n"])
+                n += 1
+            elif shape == "dense":            # long unbroken runs: hard cuts and far-away separators
+                k = rng.randint(20, 1500)
+                rl.append([k, "a"])
+                n += k
+                rl.append([1, rng.choice(["s", ".", "n", "s"])])
+                n += 1
+            elif shape == "lines":
+                k = rng.randint(5, 90)
+                rl.append([k, "a"])
+                rl.append([1, "n"])
+                n += k + 1
+            else:                             # mixed runs of every class
+                k = rng.randint(1, 40)
+                rl.append([k, rng.choice(["a", "a", "a", "s", ".", "n"])])
+                n += k
+        return rl
+
+    # (1) explicit small chunk sizes
+    for _ in range(150 if quick else 2500):
+        C = rng.choice([5, 8, 40, 100, 160, 200])
+        cases.append({"fn": "chunk", "C": C, "text": rnd_text(rng.randint(0, 6 * C + 80), rng.choice(["prose", "dense", "lines", "mixed", "mixed"]))})
+    for C in (5, 40):
+        for total in (0, 1, C - 1, C, C + 1, 2 * C, 2 * C + 1):
+            cases.append({"fn": "chunk", "C": C, "text": [[total, "a"]] if total else []})
+            cases.append({"fn": "chunk", "C": C, "text": [[max(total - 1, 0), "a"], [1, "."]]})
+    # (2) the whole planner around the threshold and beyond
+    for total in (2390, 2399, 2400, 2401, 2405, 2450, 3599, 3600, 3601):
+        for shape in ("prose", "lines", "dense"):
+            cases.append({"fn": "chunk", "C": 0, "text": rnd_text(total, shape)})
+    for _ in range(60 if quick else 1200):
+        cases.append({"fn": "chunk", "C": 0, "text": rnd_text(rng.randint(2300, 9000), rng.choice(["prose", "prose", "dense", "lines", "mixed"]))})
+    cases.append({"fn": "chunk", "C": 0, "text": [[5000, "a"]]})
+    cases.append({"fn": "chunk", "C": 0, "text": [[1300, "a"], [1, "."], [1, "s"], [1300, "a"], [3, "n"], [200, "a"]]})
+    # (3) structured documents: tables and code fences of growing size between paragraphs
+    for _ in range(40 if quick else 600):
+        blocks = []
+        for _ in range(rng.randint(1, 6)):
+            k = rng.choice(["para", "para", "table", "table", "code"])
+            blocks.append({"k": k, "n": rng.randint(1, 60 if k != "para" else 25), "cols": rng.randint(2, 6)})
+        if not any(b["k"] != "para" for b in blocks):
+            blocks.insert(rng.randint(0, len(blocks)), {"k": rng.choice(["table", "code"]), "n": rng.randint(1, 60), "cols": rng.randint(2, 6)})
+        cases.append({"fn": "chunk", "C": 0, "doc": blocks})
+    return cases
+
+
 def codec_cases(quick, rng):
     """C30: the cases are the ones TLC enumerated and wrote out while model-checking MC_Codecs (spec -> impl)."""
     path = os.path.join(_CASES_DIR["d"], "codec_cases.ndjson")
@@ -280,8 +354,8 @@ def codec_cases(quick, rng):
 _CASES_DIR = {}
 
 
-GEN = {"C30": codec_cases, "C29": capsule_cases, "C31": footer_cases, "C37": adaptive_cases, "C35": snippet_cases, "C32": query_cases}
-WHAT = {"C30": "HeaderCodec / CommitFooter / Toc / time-index encode and decode", "C29": "encryption::lock_file / unlock_file", "C31": "find_last_valid_footer", "C37": "find_adaptive_cutoff / normalize_scores", "C35": "compute_snippet_slices",
+GEN = {"C34": chunk_cases, "C30": codec_cases, "C29": capsule_cases, "C31": footer_cases, "C37": adaptive_cases, "C35": snippet_cases, "C32": query_cases}
+WHAT = {"C34": "plan_text_chunks / build_chunk_manifest", "C30": "HeaderCodec / CommitFooter / Toc / time-index encode and decode", "C29": "encryption::lock_file / unlock_file", "C31": "find_last_valid_footer", "C37": "find_adaptive_cutoff / normalize_scores", "C35": "compute_snippet_slices",
         "C32": "parse_query + ParsedQuery::evaluate"}
 
 
@@ -398,6 +472,10 @@ def run_prop(prop, tier, out: Outcome):
             o["cut"] = o.get("cut", 0) + 100
         elif prop == "C35":
             o["slices"] = o.get("slices", []) + [[0, 1], [0, 1]]
+        elif prop == "C34":
+            ev = next(json.loads(x) for x in lines if json.loads(x)["out"].get("ranges"))
+            o = ev["out"]
+            o["ranges"][0][1] += 1
         elif prop == "C30":
             ev = next(json.loads(x) for x in lines if json.loads(x)["in"]["m"]["k"] == "none" and json.loads(x)["in"]["codec"] == "footer")
             o = ev["out"]
